@@ -27,11 +27,11 @@ MANIFEST = dict(
          "load_module (sanity gate, libxmp_adjust_string, libxmp_load_epilogue, libxmp_prepare_scan, libxmp_scan_sequences with "
          "scan_module abstract) succeeds, the module satisfies the clauses of C03 that this path is responsible for (counts within "
          "limits, every pattern present with valid present tracks, rst/spd/bpm ranges, envelope upper bounds and volume-envelope "
-         "clamp, sustain-loop clause, names terminated/printable, non-empty order list holds a valid pattern, 1..255 sequences with "
+         "clamp, a sample with data and the LOOP flag has 0 <= lps < lpe <= len, sustain-loop clause, names terminated/printable, non-empty order list holds a valid pattern, 1..255 sequences with "
          "distinct entry points inside the order list, durations >= 0, sequence_control[ord] = 0xff or < num_sequences). The model is "
          "tied to the C on every run by a raw-module injector (real load_module vs model: return code and full dump) and by "
          "regenerated limits / allocation-site lists. The per-loader clauses (rows >= 1, sub-instruments allocated, sample loops and "
-         "guard frames, envelope lower bounds, restart >= 0) are checked, not proved: the same decidable Lean predicate WF is "
+         "guard frames / loop bounds of unflagged loops, envelope lower bounds, restart >= 0) are checked, not proved: the same decidable Lean predicate WF is "
          "evaluated on dumps of corpus files and structure-aware mutants loaded by the real library.",
     note="Trusted: Lean kernel; the hand-written model XmpModel/LoadPost.lean; the harnesses, translators and differ. scan_module is "
          "abstract (any marks, any time): only its marking rule and the bookkeeping of libxmp_scan_sequences are modelled; "
@@ -52,7 +52,7 @@ REQUIRED = ["Xmp.LoadPost.C03_finish_wf", "Xmp.LoadPost.C03_sequences", "Xmp.Loa
 
 # clauses of WF that the common path guarantees for arbitrary raw modules (WFCommon)
 COMMON_CLAUSES = {"counts", "patterns", "spd", "bpm", "sequences", "sequence_control", "channels", "orders",
-                  "sustain", "envelopes_upper", "rst_upper"}
+                  "sustain", "envelopes_upper", "rst_upper", "sample_loops"}
 
 WORK = os.path.join(vlib.OUT, "c03")
 INT_MAX = 2 ** 31 - 1
